@@ -131,6 +131,13 @@ func scriptedPrefix(s *Store, c vcfg, keys [][]byte, m *model, which int) {
 		put(0)
 		remove(0)
 		put(last)
+	case 9: // several index files and unflushed work on top
+		put(0)
+		put(last)
+		flush()
+		put(0)
+		flush()
+		put(last)
 	case 7: // a dead file between live ones (needs >= 3 keys)
 		put(0)
 		put(1)
@@ -188,6 +195,12 @@ func Verif_H04GC() {
 	}
 	checkAll(s, keys, m, "end")
 	checkIter(s, keys, m, "end")
+	if vrt.Param("endfsck", 0) != 0 {
+		// the independent reader of the file formats, including "no orphan records"
+		// (set orphans=1): GC must not leave anything that nothing can release
+		vrt.Assert(s.Flush() == nil, "flush-no-error", "where", "end")
+		fsck(s, dir, "end")
+	}
 	vrt.Assert(s.Close() == nil, "close-no-error")
 	s2, err := openCfg(dir, c)
 	vrt.Assert(err == nil, "reopen-no-error")
